@@ -40,12 +40,15 @@ PhysStep.vos PhysStep.vok PhysStep.required_vos: PhysStep.v /verif/coq/Base.vos 
 PhysSeq.vo PhysSeq.glob PhysSeq.v.beautified PhysSeq.required_vo: PhysSeq.v /verif/coq/Base.vo /verif/coq/Layout.vo Builder.vo GbLemmas.vo Invariant.vo Phys.vo PhysStep.vo
 PhysSeq.vio: PhysSeq.v /verif/coq/Base.vio /verif/coq/Layout.vio Builder.vio GbLemmas.vio Invariant.vio Phys.vio PhysStep.vio
 PhysSeq.vos PhysSeq.vok PhysSeq.required_vos: PhysSeq.v /verif/coq/Base.vos /verif/coq/Layout.vos Builder.vos GbLemmas.vos Invariant.vos Phys.vos PhysStep.vos
+Growth.vo Growth.glob Growth.v.beautified Growth.required_vo: Growth.v /verif/coq/Base.vo /verif/coq/Layout.vo Builder.vo Same.vo GbLemmas.vo Invariant.vo Phys.vo PhysStep.vo
+Growth.vio: Growth.v /verif/coq/Base.vio /verif/coq/Layout.vio Builder.vio Same.vio GbLemmas.vio Invariant.vio Phys.vio PhysStep.vio
+Growth.vos Growth.vok Growth.required_vos: Growth.v /verif/coq/Base.vos /verif/coq/Layout.vos Builder.vos Same.vos GbLemmas.vos Invariant.vos Phys.vos PhysStep.vos
 Proofs_C14.vo Proofs_C14.glob Proofs_C14.v.beautified Proofs_C14.required_vo: Proofs_C14.v /verif/coq/Base.vo /verif/coq/Layout.vo Builder.vo Spec.vo GbLemmas.vo Invariant.vo StepLemmas.vo AtomStep.vo Push.vo OpenClose.vo Roundtrip.vo ToList.vo Same.vo
 Proofs_C14.vio: Proofs_C14.v /verif/coq/Base.vio /verif/coq/Layout.vio Builder.vio Spec.vio GbLemmas.vio Invariant.vio StepLemmas.vio AtomStep.vio Push.vio OpenClose.vio Roundtrip.vio ToList.vio Same.vio
 Proofs_C14.vos Proofs_C14.vok Proofs_C14.required_vos: Proofs_C14.v /verif/coq/Base.vos /verif/coq/Layout.vos Builder.vos Spec.vos GbLemmas.vos Invariant.vos StepLemmas.vos AtomStep.vos Push.vos OpenClose.vos Roundtrip.vos ToList.vos Same.vos
-Props_C14.vo Props_C14.glob Props_C14.v.beautified Props_C14.required_vo: Props_C14.v /verif/coq/Base.vo /verif/coq/Layout.vo Builder.vo Spec.vo GbLemmas.vo Invariant.vo Same.vo Phys.vo PhysSeq.vo Proofs_C14.vo
-Props_C14.vio: Props_C14.v /verif/coq/Base.vio /verif/coq/Layout.vio Builder.vio Spec.vio GbLemmas.vio Invariant.vio Same.vio Phys.vio PhysSeq.vio Proofs_C14.vio
-Props_C14.vos Props_C14.vok Props_C14.required_vos: Props_C14.v /verif/coq/Base.vos /verif/coq/Layout.vos Builder.vos Spec.vos GbLemmas.vos Invariant.vos Same.vos Phys.vos PhysSeq.vos Proofs_C14.vos
+Props_C14.vo Props_C14.glob Props_C14.v.beautified Props_C14.required_vo: Props_C14.v /verif/coq/Base.vo /verif/coq/Layout.vo Builder.vo Spec.vo GbLemmas.vo Invariant.vo Same.vo Phys.vo PhysSeq.vo Growth.vo Proofs_C14.vo
+Props_C14.vio: Props_C14.v /verif/coq/Base.vio /verif/coq/Layout.vio Builder.vio Spec.vio GbLemmas.vio Invariant.vio Same.vio Phys.vio PhysSeq.vio Growth.vio Proofs_C14.vio
+Props_C14.vos Props_C14.vok Props_C14.required_vos: Props_C14.v /verif/coq/Base.vos /verif/coq/Layout.vos Builder.vos Spec.vos GbLemmas.vos Invariant.vos Same.vos Phys.vos PhysSeq.vos Growth.vos Proofs_C14.vos
 Extract_C14.vo Extract_C14.glob Extract_C14.v.beautified Extract_C14.required_vo: Extract_C14.v /verif/coq/Layout.vo /verif/coq/Valid.vo /verif/coq/Types.vo Builder.vo Spec.vo
 Extract_C14.vio: Extract_C14.v /verif/coq/Layout.vio /verif/coq/Valid.vio /verif/coq/Types.vio Builder.vio Spec.vio
 Extract_C14.vos Extract_C14.vok Extract_C14.required_vos: Extract_C14.v /verif/coq/Layout.vos /verif/coq/Valid.vos /verif/coq/Types.vos Builder.vos Spec.vos
